@@ -72,6 +72,8 @@ type Lemma struct {
 	Ensures  []*Spec
 	Induct   string
 	Uses     []string
+	Props    []string
+	Pattern  []*Spec
 	Pkg      string
 	Text     string
 }
@@ -100,6 +102,7 @@ type Contract struct {
 	File     string
 	Line     int
 	Bounded  string
+	Lemmas   []string
 }
 
 type ContractSet struct {
@@ -224,6 +227,7 @@ func (cs *ContractSet) loadFile(pkg, file string) error {
 		lines = append(lines, rawLine{tt, ln})
 	}
 	var cur *Contract
+	var curLemma *Lemma
 	for _, rl := range lines {
 		t := rl.text
 		word := t
@@ -232,6 +236,9 @@ func (cs *ContractSet) loadFile(pkg, file string) error {
 			word, rest = t[:i], strings.TrimSpace(t[i+1:])
 		}
 		fail := func(e error) error { return fmt.Errorf("%s:%d: %v", file, rl.line, e) }
+		if word != "requires" && word != "ensures" && word != "induction" && word != "pattern" {
+			curLemma = nil
+		}
 		switch word {
 		case "spec", "rec":
 			name, params, r, err := splitHead(rest)
@@ -283,39 +290,31 @@ func (cs *ContractSet) loadFile(pkg, file string) error {
 				return fail(err)
 			}
 			lm := &Lemma{Name: name, Params: pd, Pkg: pkg, Text: r}
-			for _, part := range strings.Split(r, "::") {
-				part = strings.TrimSpace(part)
-				if part == "" {
-					continue
-				}
-				w := part
-				rr := ""
-				if i := strings.IndexAny(part, " \t"); i >= 0 {
-					w, rr = part[:i], strings.TrimSpace(part[i+1:])
-				}
-				switch w {
-				case "requires", "ensures":
-					e, err := ParseSpec(rr)
-					if err != nil {
-						return fail(err)
-					}
-					if w == "requires" {
-						lm.Requires = append(lm.Requires, e)
-					} else {
-						lm.Ensures = append(lm.Ensures, e)
-					}
-				case "induction":
-					lm.Induct = rr
-				case "uses":
-					for _, u := range strings.Split(rr, ",") {
-						lm.Uses = append(lm.Uses, strings.TrimSpace(u))
-					}
-				default:
-					return fail(fmt.Errorf("bad lemma part %q", part))
+			f := strings.Fields(r)
+			for i := 0; i < len(f); i++ {
+				if f[i] == "props" && i+1 < len(f) {
+					lm.Props = strings.Split(f[i+1], ",")
+					i++
 				}
 			}
 			cs.Lemmas = append(cs.Lemmas, lm)
 			cur = nil
+			curLemma = lm
+			continue
+		case "induction", "pattern":
+			if curLemma == nil {
+				return fail(fmt.Errorf("%s outside lemma", word))
+			}
+			if word == "induction" {
+				curLemma.Induct = rest
+			} else {
+				e, err := ParseSpec("pat(" + rest + ")")
+				if err != nil {
+					return fail(err)
+				}
+				curLemma.Pattern = e.Args
+			}
+			continue
 		case "ghost":
 			f := strings.SplitN(rest, " ", 2)
 			if len(f) != 2 {
@@ -361,6 +360,18 @@ func (cs *ContractSet) loadFile(pkg, file string) error {
 			cs.Contracts[key] = c
 			cur = c
 		case "requires", "ensures":
+			if curLemma != nil {
+				e, err := ParseSpec(rest)
+				if err != nil {
+					return fail(err)
+				}
+				if word == "requires" {
+					curLemma.Requires = append(curLemma.Requires, e)
+				} else {
+					curLemma.Ensures = append(curLemma.Ensures, e)
+				}
+				continue
+			}
 			if cur == nil {
 				return fail(fmt.Errorf("%s outside contract", word))
 			}
@@ -392,6 +403,13 @@ func (cs *ContractSet) loadFile(pkg, file string) error {
 				if m != "" && m != "nothing" {
 					cur.Modifies = append(cur.Modifies, m)
 				}
+			}
+		case "lemma!", "uses":
+			if cur == nil {
+				return fail(fmt.Errorf("uses outside contract"))
+			}
+			for _, l := range strings.Split(rest, ",") {
+				cur.Lemmas = append(cur.Lemmas, strings.TrimSpace(l))
 			}
 		case "bounded":
 			if cur == nil {
